@@ -11,8 +11,10 @@ RULES = {
     "R03.1": "tally = ballots: on every path that writes a ballot, the Ballot{weight: W, vote: V} saved and the tally change "
              "use the same (V, W): the field of `votes` named like V grows by exactly W (at creation: Votes{yes: P, others 0} "
              "with the proposer's ballot {P, Yes}); Votes::total sums all four fields",
-    "R03.2": "status recomputed: every PROPOSALS write that changes `votes` (and the creating write) stores "
-             "status = current_status(<the proposal as saved>, env.block)",
+    "R03.2": "stored statuses are truthful: a PROPOSALS write that changes `votes` (and the creating write) either stores "
+             "status = current_status(<the proposal as saved>, env.block) or leaves the status as it is / Open - a stored status other "
+             "than Open is final for every reader, a stored Open is recomputed by every reader, so only a *wrong* non-Open status can "
+             "make the observed status differ from the outcome (persisting the outcome early is an optimisation, not a requirement)",
     "R03.3": "admission re-evaluates: Execute requires current_status(stored, env.block) == Passed; Close requires stored status "
              "not in {Executed, Rejected, Passed}, current_status(stored, env.block) != Passed and is_expired(expires, env.block)",
     "R03.4": "queries report the derived status: Proposal / ListProposals / ReverseProposals answer "
@@ -62,8 +64,10 @@ def run(ctx):
                         st = field_of(e.value, "status")
                         x = cs_call(st)
                         want = ("struct", e.value[1], tuple((n, (status("Open") if n == "status" else v)) for n, v in e.value[2]))
-                        ctx.ob("R03.2", key + "/create", x is not None and x == want, sites=[e.site],
-                               detail="created proposal stores status %s, not current_status(<the proposal as created, Open>, env.block)" % show(st)[:200],
+                        # a stored status other than Open is final for current_status (only open proposals move), so it must be the
+                        # outcome computed for the proposal as created; storing Open is always truthful (it is recomputed on every read)
+                        ctx.ob("R03.2", key + "/create", (x is not None and x == want) or st == status("Open"), sites=[e.site],
+                               detail="created proposal stores status %s, neither Open nor current_status(<the proposal as created, Open>, env.block)" % show(st)[:200],
                                sample={"status": show(st)[:120]})
                         # R03.1 creation
                         votes = field_of(e.value, "votes")
@@ -87,10 +91,13 @@ def run(ctx):
                         if x is not None:
                             xb, xf = update_base(x)
                             want = xb == base and xf.get("votes") == fields["votes"] and set(xf) <= {"votes"}
-                        ctx.ob("R03.2", key + "/vote", bool(want), sites=[e.site],
-                               detail="tally changed but the stored status is %s, not current_status(<proposal with the new tally>, env.block)"
-                                      % (show(st)[:200] if st is not None else "left as stored"),
-                               sample={"status": show(st)[:160] if st else None})
+                        # the stored status is either left as it is (every reader recomputes an Open one, a decided one stays decided -
+                        # the decisions are monotone in further votes) or set to the outcome of the proposal with the new tally;
+                        # anything else stores a status no rule produced
+                        ctx.ob("R03.2", key + "/vote", bool(want) or st is None, sites=[e.site],
+                               detail="tally changed and the stored status becomes %s, which is neither the stored one nor "
+                                      "current_status(<proposal with the new tally>, env.block)" % show(st)[:200],
+                               sample={"status": show(st)[:160] if st else "left as stored"})
                         # R03.1
                         vb, vf = update_base(fields["votes"])
                         good = False
@@ -126,7 +133,9 @@ def run(ctx):
                 if variant == "Close" and pw:
                     i, e = pw[0]
                     base, _ = update_base(e.value)
-                    g1 = stored_status_in(ctx, p, base, ("Pending", "Open"), before=i)
+                    # for the status alone a stored Rejected may be closed again (it stays Rejected); that Close is not repeatable is
+                    # C05 R05.3 / C15 R15.5
+                    g1 = stored_status_in(ctx, p, base, ("Pending", "Open", "Rejected"), before=i)
                     g2 = cs_not_passed(ctx, p, base, before=i)
                     g3 = is_expired_cond(p, ("field", base, "expires"), True, before=i)
                     ctx.ob("R03.3", key, g1 and g2 and g3, sites=[e.site],
